@@ -147,7 +147,7 @@ PROPS = {
         explanation="ghost answer-log contracts on _receive_message, send_message and the base-protocol handlers.",
     ),
     "C17": dict(
-        specs=["packer", "avp", "avp_types", "avp_grouped", "base", "node_model", "peer", "helpers", "c20", "node", "c13", "c06"],
+        specs=["packer", "avp", "avp_types", "avp_grouped", "base", "node_model", "peer", "helpers", "c20", "node", "c13", "c06", "c08"],
         ground=[], replay=replay.generic,
         trusted_base=["collections.deque(maxlen=N).append model (drops the oldest element when full)"],
         assumptions=COMMON_ASSUME + [
